@@ -6,6 +6,7 @@ import (
 	"encoding/hex"
 	"encoding/json"
 	"fmt"
+	"io"
 	"os"
 	"path/filepath"
 	"strings"
@@ -20,15 +21,16 @@ import (
 // C16 — Pack output depends only on the tree and the options.
 
 type PackStep struct {
-	Nodes  []TNode `json:"nodes"`
-	Ignore bool    `json:"ignore,omitempty"`
-	Deref  bool    `json:"deref,omitempty"`
-	Legacy bool    `json:"legacy,omitempty"`
-	Src    string  `json:"src,omitempty"` // spelling; "" = <W>/src
-	Cwd    string  `json:"cwd,omitempty"` // W-relative directory to chdir into ("" = /)
-	Unpack bool    `json:"unpack,omitempty"`
-	Allow3 bool    `json:"allow3,omitempty"` // three AllowSymlinkTarget options (spare slice capacity on the Packer)
-	Name   string  `json:"name,omitempty"`
+	Nodes      []TNode `json:"nodes"`
+	Ignore     bool    `json:"ignore,omitempty"`
+	Deref      bool    `json:"deref,omitempty"`
+	Legacy     bool    `json:"legacy,omitempty"`
+	Src        string  `json:"src,omitempty"` // spelling; "" = <W>/src
+	Cwd        string  `json:"cwd,omitempty"` // W-relative directory to chdir into ("" = /)
+	Unpack     bool    `json:"unpack,omitempty"`
+	Allow3     bool    `json:"allow3,omitempty"`      // three AllowSymlinkTarget options (spare slice capacity on the Packer)
+	SlowWriter bool    `json:"slow_writer,omitempty"` // every Write of the output writer is a scheduling point (sched build): another call can run while this one is in the middle of copying a file
+	Name       string  `json:"name,omitempty"`
 }
 
 type PackSeqArg struct {
@@ -98,6 +100,30 @@ func newPackerFor(st PackStep) *slug.Packer {
 	return p
 }
 
+// writerHook is set by the scheduler build: a scheduling point inside the output writer.
+var writerHook func()
+
+type hookWriter struct{ w io.Writer }
+
+func (h hookWriter) Write(p []byte) (int, error) {
+	if writerHook != nil {
+		writerHook()
+	}
+	return h.w.Write(p)
+}
+
+// failAfterWriter fails once n bytes were accepted (a Pack that dies in the middle of a file body).
+type failAfterWriter struct{ n int }
+
+func (f *failAfterWriter) Write(p []byte) (int, error) {
+	if f.n < len(p) {
+		f.n = 0
+		return 0, errInjectedWrite
+	}
+	f.n -= len(p)
+	return len(p), nil
+}
+
 // packOnly runs the Pack call of a step and renders its output canonically.
 func packOnly(W string, st PackStep) string { return packWith(nil, W, st) }
 
@@ -108,6 +134,10 @@ func packWith(shared *slug.Packer, W string, st PackStep) string {
 		src = strings.ReplaceAll(st.Src, "<W>", W)
 	}
 	var buf bytes.Buffer
+	var out io.Writer = &buf
+	if st.SlowWriter {
+		out = hookWriter{&buf}
+	}
 	var meta *slug.Meta
 	var err error
 	pan := ""
@@ -119,11 +149,11 @@ func packWith(shared *slug.Packer, W string, st PackStep) string {
 		}()
 		switch {
 		case shared != nil:
-			meta, err = shared.Pack(src, &buf)
+			meta, err = shared.Pack(src, out)
 		case st.Legacy:
-			meta, err = slug.Pack(src, &buf, st.Deref)
+			meta, err = slug.Pack(src, out, st.Deref)
 		default:
-			meta, err = newPackerFor(st).Pack(src, &buf)
+			meta, err = newPackerFor(st).Pack(src, out)
 		}
 	}()
 	if pan != "" {
@@ -171,6 +201,8 @@ func c16Trees() map[string][]TNode {
 		"neg":    {{Path: "src/a", Kind: "file", Body: "A"}, {Path: "src/b", Kind: "file", Body: "B"}, {Path: "src/.terraformignore", Kind: "file", Body: "!a\nb\n"}},
 		"git":    {{Path: "src/a", Kind: "file", Body: "A"}, {Path: "src/.git/HEAD", Kind: "file", Body: "ref"}, {Path: "src/.terraform/modules/m/x", Kind: "file", Body: "m"}, {Path: "src/.terraform/y", Kind: "file", Body: "y"}},
 		"locked": {{Path: "src/a", Kind: "file", Body: "A"}, {Path: "src/.git/locked/x", Kind: "file", Body: "x"}, {Path: "src/.git/locked", Kind: "dir", Mode: -1}},
+		"bigA":   {{Path: "src/a", Kind: "file", Body: "A"}, {Path: "src/big", Kind: "file", Body: "<NOISE:150000>"}},
+		"bigB":   {{Path: "src/b", Kind: "file", Body: "B"}, {Path: "src/big", Kind: "file", Body: "<NOISEB:150000>"}},
 		"deref":  {{Path: "src/a", Kind: "file", Body: "A"}, {Path: "src/ext", Kind: "link", Target: "../out/dir"}, {Path: "out/dir/g", Kind: "file", Body: "G"}},
 	}
 }
